@@ -602,3 +602,97 @@ def i3_result_selection(prog):
                 r.viol('I3', key + '/filter-without-views', f.loc(t['ln']),
                        'archetypes are selected with %s, which does not include the iterator\'s Views: archetypes lacking a viewed component are counted or visited' % ty_str(ft))
     return r
+
+
+@rule('Z1', props=['C06', 'C11', 'C01', 'C05'], floor={'all': 10, 'default': 8}, configs=('all', 'default'))
+def z1_division_by_type_size(prog):
+    """Components may be zero-sized (marker types): no division or remainder anywhere in the crate has a divisor
+    that is `size_of::<T>()` of a type mentioning a generic parameter, unless the path to it has compared that
+    size with zero. (rustc keeps the divide-by-zero assertion even with overflow checks off, so such a division
+    panics for a zero-sized component — e.g. a capacity heuristic in a deserialiser makes valid data unreadable.)
+    Instances: every Div/Rem in the crate, with the provenance of its divisor."""
+    r = Result()
+    for f in prog.fns.values():
+        body = f.body
+        for b, i, s in body.stmts():
+            if s['k'] != 'assign' or s['rv']['k'] != 'binop' or not s['rv']['op'].startswith(('Div', 'Rem')):
+                continue
+            dv = s['rv']['b']
+            l = op_local(dv)
+            src = 'const' if 'const' in dv else 'local'
+            culprit = None
+            hops = 0
+            while l is not None and hops < 10:
+                hops += 1
+                d = resolve_def(body, l)
+                if d is None:
+                    break
+                if d[0] == 'call':
+                    fn = d[2]['f']
+                    if fn.get('path', '').startswith('core::mem::size_of') and any(ty_params(a) for a in fn.get('args', []) if a.get('k') != 'region'):
+                        culprit = (d[1], d[2])
+                    break
+                rv = d[3]['rv']
+                if rv['k'] == 'use' and op_local(rv['op']) is not None:
+                    l = op_local(rv['op'])
+                    continue
+                if rv['k'] == 'use' and 'const' in rv['op']:
+                    c = rv['op']['const']
+                    if 'uneval' in c and 'SIZE' in c.get('uneval_name', '').upper():
+                        src = 'assoc-const'
+                    break
+                break
+            r.inst('%s: %s by %s' % (f.path[:80], s['rv']['op'], 'size_of::<T>()' if culprit else src))
+            if culprit is None:
+                continue
+            # guarded by a comparison of that size with zero?
+            cl = culprit[1]['dest']['l']
+            der = derived(body, {cl})
+            guarded = False
+            for sb in range(body.n):
+                st = body.term(sb)
+                if st['k'] != 'switch':
+                    continue
+                dl = op_local(st['discr'])
+                dd = single_def(body, dl) if dl is not None else None
+                if dd and dd[0] == 'assign' and dd[3]['rv']['k'] == 'binop' and dd[3]['rv']['op'] in ('Eq', 'Ne', 'Gt', 'Lt', 'Ge', 'Le'):
+                    ops_ = [dd[3]['rv']['a'], dd[3]['rv']['b']]
+                    if any(op_local(o) in der for o in ops_ if op_local(o) is not None) and any(op_const(o) is not None and op_const(o).get('val') in (0, 1) for o in ops_):
+                        if any(body.edge_dominates((sb, tg), b) for tg in set(st['targets'] + [st['otherwise']])):
+                            guarded = True
+            if not guarded:
+                r.viol('Z1', '%s/division-by-size-of' % f.path, f.loc(s['ln']),
+                       'division by size_of::<T>() of a generic type without a zero-size check: panics (attempt to divide by zero) for zero-sized components')
+    return r
+
+
+@rule('T2b', props=['C07', 'C08'], floor=1, configs=('all',))
+def t2b_claims_recursion_complete(prog):
+    """Claim lists are cons cells `(Claim, C)`: every method of the `Claims` impl for a cons cell that combines
+    two lists and cannot fail (its result is not an Option) recurses into the tails `self.1`/`other.1` on every
+    returning path — a per-column shortcut (e.g. "nothing to merge for this column, return") must not end the
+    walk, or the claims of all later columns are silently dropped. (`try_merge`, which may refuse, is covered
+    by T2.)"""
+    r = Result()
+    for imp in prog.facts['impls']:
+        if not (imp['trait'] and imp['trait']['path'] == 'query::view::claim::Claims' and imp['self'].get('k') == 'tuple'):
+            continue
+        for f in prog.impl_methods(imp):
+            out = f.d.get('output') or {}
+            ins = f.d.get('inputs') or []
+            if is_adt(out, 'core::option::Option') or len(ins) < 2:
+                continue
+            r.inst('Claims::%s for (Claim, C)' % f.name)
+            E = pathsem.analyse(prog, f)
+            S = pathsem.strip_refs
+            bad = E.truncated or not E.paths
+            for p in E.paths:
+                if p.ended != 'return':
+                    continue
+                rec = [e for e in p.calls(lambda e: e['f'].get('trait') == 'query::view::claim::Claims' and e['name'] == f.name)
+                       if any(pathsem.is_field_of(S(v), 'tuple', 1) for v in list(e['vals']) + list(e['args']))]
+                if not rec:
+                    bad = True
+            if bad:
+                r.viol('T2b', 'Claims::%s/tail-not-visited' % f.name, f.loc(), 'a path through Claims::%s for (Claim, C) returns without processing the tail of the two lists: the claims of every later column are dropped' % f.name)
+    return r
